@@ -16,6 +16,7 @@ import (
 	"utilcheck/core"
 	"utilcheck/flow"
 	"utilcheck/load"
+	"utilcheck/pred"
 	"utilcheck/props"
 )
 
@@ -128,6 +129,7 @@ func main() {
 						rep.Broken = append(rep.Broken, fmt.Sprintf("analyser panic: %v\n%s", r, debug.Stack()))
 					}
 				}()
+				pred.WordBits = p.WordBits
 				pr.Run(env)
 			}()
 			for _, o := range env.S.Obs {
@@ -145,6 +147,8 @@ func main() {
 							rep.Broken = append(rep.Broken, fmt.Sprintf("analyser panic (GOARCH=386): %v\n%s", r, debug.Stack()))
 						}
 					}()
+					pred.WordBits = p386.WordBits
+					defer func() { pred.WordBits = p.WordBits }()
 					pr.Run(env386)
 				}()
 				for _, o := range env386.S.Obs {
